@@ -152,6 +152,16 @@ def run(chk):
     chk.decide(out == ["P_ev", "P_ma", "P_ev"], "retrieval-routed-by-recipe-kind-in-order", fre.qname,
                f"_retrieve([Evolution, Matching, Evolution]) returns {out}", where=fre.where, how="PE")
     _whole_solve(chk, src)
+    matching_wiring(chk, src)
+    chk.note(orderings=n_cases, files=["src/eko/runner/managed.py", "src/eko/runner/operators.py", "src/eko/runner/recipes.py",
+                                       "src/eko/runner/parts.py", "src/eko/io/items.py"])
+    chk.explanation = "Product formula and order of join, recipe/path correspondence (exhaustive), routing and once-only computation."
+
+
+def matching_wiring(chk, src, rule="matching-part-wiring", crashes_only=False):
+    """parts.match for every heavy quark, direction and mass scheme, with a recording OperatorMatrixElement (shared with C04)"""
+    mat = src.cls("eko.io.items.Matching")
+    n_cases = None
     # ---- (5) matching part wiring ------------------------------------------------------------------------------------------
     fm = src.func("eko.runner.parts.match")
     from ..pe import Opaque, named_arguments
@@ -200,19 +210,25 @@ def run(chk):
         b = built[0] if len(built) == 1 else {}
         sp = split[0] if len(split) == 1 else {}
         n_wire += 1
+        if crashes_only:
+            # C04: whatever the heavy quark and the direction, the matching part is computed or refused cleanly - never an IndexError /
+            # TypeError / AttributeError out of the bookkeeping
+            why = b.get("raises")
+            chk.decide(why is None or why.startswith(("NotImplementedError", "ValueError")), rule, fm.qname,
+                       f"matching at the threshold of quark {hq}, inverse={inverse}, scheme {scheme}: computing the part raises {why} - a crash with an "
+                       f"unrelated exception in a supported configuration", where=fm.where, instance=f"{hq},{inverse},{scheme}",
+                       how="PE with recording OperatorMatrixElement")
+            continue
         ok = b.get("nf") == hq - 1 and b.get("q2") is dag.sym("mu2") and b.get("is_backward") is inverse \
             and b.get("L") is not None and dag.tonode(b.get("L")) is dag.fn("log", ks[hq - 4]) and b.get("is_msbar") is (scheme == "MSBAR") \
             and sp.get("nf") == hq - 1 and sp.get("q2_thr") is dag.sym("mu2")
         show = {k_: (dag.short(v) if isinstance(v, dag.Node) else v) for k_, v in b.items() if k_ not in ("config", "managers")}
-        chk.decide(ok, "matching-part-wiring", fm.qname,
+        chk.decide(ok, rule, fm.qname,
                    f"matching at the threshold of quark {hq}, inverse={inverse}, scheme {scheme}: the matrix element is built with {show} and "
                    f"blown up with {({k_: (dag.short(v) if isinstance(v, dag.Node) else v) for k_, v in sp.items() if k_ != 'ome_members'})}; required "
                    f"{hq - 1} light flavours, the recipe's scale and direction, L = log of matching ratio {hq - 4}, is_msbar={scheme == 'MSBAR'}",
                    where=fm.where, instance=f"{hq},{inverse},{scheme}", how="PE with recording OperatorMatrixElement")
     chk.floor("matching wiring cases", n_wire, 12)
-    chk.note(orderings=n_cases, files=["src/eko/runner/managed.py", "src/eko/runner/operators.py", "src/eko/runner/recipes.py",
-                                       "src/eko/runner/parts.py", "src/eko/io/items.py"])
-    chk.explanation = "Product formula and order of join, recipe/path correspondence (exhaustive), routing and once-only computation."
 
 
 def _whole_solve(chk, src):
